@@ -135,7 +135,9 @@ struct FlakyExecutor : public babylon::Executor {
       // contract of BasicExecutor::invoke: != 0 => the function was neither moved away nor called
       W->refusals++;
       t.last_refused = true;
-      return -1;
+      // any non-zero code is a refusal (negative or errno-style positive); derived from the attempt number
+      static const int codes[] = {-1, 1, 11 /*EAGAIN*/, -22, INT32_MAX, INT32_MIN, 12 /*ENOMEM*/};
+      return codes[(size_t)attempt % (sizeof(codes) / sizeof(codes[0]))];
     }
     t.last_refused = false;
     W->accepted++;
